@@ -208,7 +208,8 @@ def epoch(ctx, ws):
                 for s_ in cf.stmts.values():
                     if s_["k"] == "DeclStmt":
                         for d in s_["decls"]:
-                            if var and "l:" + d["name"] == var and d.get("init"):
+                            # (a local of an inlined helper is called `<helper>$<name>` in the caller's view)
+                            if var and ("l:" + d["name"] == var or d["name"].endswith("$" + var[2:])) and d.get("init"):
                                 ip = path(cf, cf.s(d["init"]))
                                 if ip == "this.generation_":
                                     decl = s_
